@@ -1,5 +1,5 @@
 (* C02/C04 - HTTP head round trip: what format_head wrote, parse_http_message reads back. *)
-From Coq Require Import NArith List Bool Arith Lia.
+From Coq Require Import NArith ZArith List Bool Arith Lia.
 From PV Require Import Common.Cases Common.Framing Common.Endian C02.Model C02.ProofsBase C02.ProofsSpec.
 Import ListNotations.
 Local Open Scope N_scope.
@@ -123,22 +123,31 @@ Proof.
   destruct (line_nonempty kv) as (b & l & El & _). rewrite El at 1. cbn [nonempty]. now rewrite IH.
 Qed.
 
-Definition cl_of (d : list (bytes * bytes)) : option N :=
-  match cid_get d CONTENT_LENGTH with None => Some 0 | Some v => parse_cl v end.
+Definition cl_of := content_length.
+
+Lemma py_exact (body rest : bytes) :
+  py_to (Z.of_N (len body)) (body ++ rest) = body /\ py_from (Z.of_N (len body)) (body ++ rest) = rest.
+Proof.
+  unfold py_to, py_from, py_index, len.
+  replace (Z.of_N (N.of_nat (length body)) <? 0)%Z with false by (symmetry; apply Z.ltb_ge; lia).
+  replace (Z.to_nat (Z.of_N (N.of_nat (length body)))) with (length body) by lia.
+  split; [apply firstn_exact|apply skipn_exact].
+Qed.
 
 Section RT.
   Variable utf8_ok : bytes -> bool.
 
-  Theorem http_roundtrip : forall first hdrs body rest,
+  (* for the code as written (strict = false) and for the strict parser alike *)
+  Theorem http_roundtrip : forall strict first hdrs body rest,
     clean first ->
     Forall (fun kv => clean (fst kv) /\ clean (snd kv)) hdrs ->
     Forall (fun kv => ~ In 58 (fst kv)) hdrs ->
     utf8_ok (first ++ concat (map (fun kv => CRLF ++ line_of kv) hdrs)) = true ->
-    cl_of (cid_of hdrs) = Some (len body) ->
-    parse_http_message utf8_ok (format_head first hdrs ++ body ++ rest) = HMsg first (cid_of hdrs) body rest.
+    cl_of (cid_of hdrs) = CLInt (Z.of_N (len body)) ->
+    parse_http_message_gen utf8_ok strict (format_head first hdrs ++ body ++ rest) = HMsg first (cid_of hdrs) body rest.
   Proof.
-    intros first hdrs body rest Hf Hc Hk Hu Hcl.
-    rewrite format_head_lines. unfold parse_http_message.
+    intros strict first hdrs body rest Hf Hc Hk Hu Hcl.
+    rewrite format_head_lines. unfold parse_http_message_gen.
     set (L := concat (map (fun kv => CRLF ++ line_of kv) hdrs)) in *.
     replace (((first ++ L) ++ CRLF2) ++ body ++ rest) with (first ++ L ++ CRLF2 ++ body ++ rest)
       by (now rewrite <- !app_assoc).
@@ -153,7 +162,10 @@ Section RT.
       rewrite !app_length. cbn [CRLF length]. lia. }
     rewrite !ES. cbn [tl hd]. rewrite filter_lines, key_values_lines by assumption.
     unfold cl_of in Hcl. rewrite Hcl.
-    replace (len (body ++ rest) <? len body) with false by (symmetry; apply N.ltb_ge; rewrite len_app; lia).
-    now rewrite take_exact, drop_exact.
+    replace (Z.of_N (len body) <? 0)%Z with false by (symmetry; apply Z.ltb_ge; lia).
+    rewrite andb_false_r.
+    replace (Z.of_N (len (body ++ rest)) <? Z.of_N (len body))%Z with false
+      by (symmetry; apply Z.ltb_ge; rewrite len_app; lia).
+    destruct (py_exact body rest) as [E1 E2]. now rewrite E1, E2.
   Qed.
 End RT.
